@@ -2473,6 +2473,26 @@ impl Fs {
     }
 }
 
+#[cfg(turmoil_verif)]
+impl Fs {
+    /// Verification hook (read-only): canonical dump of the complete filesystem
+    /// state, used only to hash states for duplicate detection during exhaustive
+    /// search. Compiled only with `--cfg turmoil_verif`.
+    pub fn verif_dump(&self) -> String {
+        format!(
+            "files={:?}\ndirs={:?}\nsymlinks={:?}\nsynced={:?}\npending={:?}\nhandles={:?}\ndirect={:?}\nnext_fd={}",
+            self.persisted_files,
+            self.persisted_dirs,
+            self.persisted_symlinks,
+            self.synced_entries,
+            self.pending,
+            self.open_handles,
+            self.direct_io_fds,
+            self.next_fd
+        )
+    }
+}
+
 impl Default for Fs {
     fn default() -> Self {
         Self::new(FsConfig::default(), 0)
